@@ -197,3 +197,4 @@ Print Assumptions C17_epnp_alpha_reproduces_points.
 Print Assumptions C17_mat2SO3_of_rotation. Print Assumptions C17_svdtf_returns_proper_rigid.
 Print Assumptions C17_svdtf_call_refuted. Print Assumptions C17_svdstf_returns_similarity.
 Print Assumptions C17_icp_pass_monotone_partial.
+Print Assumptions C17_contract_satisfiable.
